@@ -470,10 +470,11 @@ fn gen_program2(mode: &str, seed: u64, idx: u64, thorough: bool, batchy: bool) -
     let mut rng = Rng::new(mix(&[seed, idx, 0x02]));
     let mut p = Profile::base();
     p.n_ks = rng.range(1, 3) as u8;
-    p.no_weak = !rng.chance(1, 8);
-    if p.no_weak {
-        p.w_remove_weak = 0;
-    }
+    // no weak tombstones in traced programs: remove_weak (doc-hidden, experimental) resurrects values after compaction
+    // (known finding F1, decided under C01/C04), which a crash-image oracle cannot tell from a recovery defect
+    let _ = rng.chance(1, 8);
+    p.no_weak = true;
+    p.w_remove_weak = 0;
     p.big_values = false;
     p.max_val = if rng.chance(1, 4) { 20_000 } else { 2_000 };
     p.long_keys = rng.chance(1, 6);
@@ -876,6 +877,37 @@ impl Verifier {
             let exp2 = crate::engine_jbytes::with_appended(got.clone(), &names);
             stats.inc("images.append_after_recovery_checked");
             if got2 != exp2 {
+                // explained-by predicate F3 between the two opens: the only differences are extra keys whose latest
+                // operation (at an allowed prefix) is a tombstone written by bulk ingestion and that show the value it
+                // removed (the first session's worker garbage-collected the tombstone, the second recovery replayed the insert)
+                let hi_c = hi.min(self.states.len() - 1);
+                let lo_c = lo.min(hi_c);
+                let mut only_f3 = true;
+                let mut extras = 0;
+                for (kname, m) in &got2 {
+                    let e = exp2.get(kname).cloned().unwrap_or_default();
+                    for (k, v) in &e {
+                        if m.get(k) != Some(v) {
+                            only_f3 = false;
+                        }
+                    }
+                    for (k, v) in m {
+                        if !e.contains_key(k) {
+                            if (lo_c..=hi_c).any(|p| self.ingest_tombstoned[p].get(&(kname.clone(), k.clone())) == Some(v)) {
+                                extras += 1;
+                            } else {
+                                only_f3 = false;
+                            }
+                        }
+                    }
+                }
+                if only_f3 && extras > 0 && got2.keys().collect::<BTreeSet<_>>() == exp2.keys().collect::<BTreeSet<_>>() {
+                    stats.inc("images.known_ingested_tombstone_gc");
+                    return Err(Deviation::new(
+                        "known:ingested-tombstone-gc-journal-resurrection",
+                        format!("{what}: after the second reopen {extras} key(s) whose latest operation is a tombstone written by bulk ingestion show the journaled value that tombstone removed"),
+                    ));
+                }
                 return Err(Deviation::new(
                     format!("{kind}:writes-after-recovery-lost"),
                     format!(
@@ -1100,6 +1132,20 @@ fn crash_like_case(mode: &str, seed: u64, idx: u64, thorough: bool, stats: &mut 
         }
         let digests = states.iter().map(dump_digest).collect();
         let bounds = compute_bounds(&run.recs, &plan.ops, plan.manual);
+        if let Ok(from) = std::env::var("FJV_DUMP_TRACE") {
+            let from: usize = from.parse().unwrap_or(0);
+            for (k, r) in run.recs.iter().enumerate().skip(from) {
+                eprintln!(
+                    "rec {k}: {} {} off={} len={} res={} {}",
+                    kind_name(r.kind),
+                    r.p1.strip_prefix(&run.root).unwrap_or(&r.p1),
+                    r.offset,
+                    r.data.len(),
+                    r.result,
+                    if r.kind == K_MARK { String::from_utf8_lossy(&r.data).trim().to_string() } else { r.p2.strip_prefix(&run.root).unwrap_or(&r.p2).to_string() }
+                );
+            }
+        }
         let mut ver = Verifier {
             worker: Worker::spawn(),
             ingest_tombstoned,
@@ -1907,12 +1953,12 @@ fn fault_case(seed: u64, idx: u64, thorough: bool, stats: &mut Counts) -> Result
                 return Err(Deviation::new("fault:reopen-panicked", format!("{what}: {e}")));
             }
             let got = parse_dump(reply.strip_prefix("ok ").unwrap_or("")).ok_or_else(|| Deviation::new("inconclusive:protocol", "bad dump"))?;
-            // manual journal persist: a memtable flush (bulk ingestion, worker flush) makes one keyspace's buffered-only
+            // manual journal persist or batches committed with durability None: a memtable flush (bulk ingestion, worker flush) makes one keyspace's buffered-only
             // writes durable through its tables while another keyspace's are still in the journal's buffer, so keyspaces
             // may be at different allowed states; what must hold is that each keyspace is in the state of some allowed one
             // (the failed operation itself stays all-or-nothing: only states without it are mixed per keyspace)
             let plain = &candidates[..plain_candidates.min(candidates.len())];
-            let per_keyspace_ok = plan.manual
+            let per_keyspace_ok = (plan.manual || must < acked.len())
                 && plain.iter().any(|c| c.keys().collect::<BTreeSet<_>>() == got.keys().collect::<BTreeSet<_>>())
                 && got.iter().all(|(name, m)| plain.iter().any(|c| c.get(name) == Some(m)));
             if per_keyspace_ok && !candidates.contains(&got) {
@@ -1947,7 +1993,7 @@ fn fault_case(seed: u64, idx: u64, thorough: bool, stats: &mut Counts) -> Result
 pub fn main(args: &Args) -> i32 {
     let mode = args.str("mode", "crash");
     if args.flag("print-program") {
-        let plan = gen_program(&mode, args.u64("seed", 1), args.u64("from", 0), args.str("tier", "quick") == "thorough");
+        let plan = gen_program2(&mode, args.u64("seed", 1), args.u64("from", 0), args.str("tier", "quick") == "thorough", args.str("property", "") == "C03");
         println!("# {}", plan.desc);
         print!("{}", program_to_text(&plan.ops));
         return 0;
